@@ -746,6 +746,7 @@ type suGen struct {
 	seq  []string
 	gate map[string]bool
 	lastLeaf []string // index path of the leaf the last generated subscription path was drawn from
+	readd    []string // targets removed by an injected operation, to be added again
 }
 
 func (s *suGen) emit(format string, a ...interface{}) { s.seq = append(s.seq, fmt.Sprintf(format, a...)) }
@@ -891,6 +892,11 @@ func (s *suGen) genSub(id string) {
 		}
 		op := s.g.seq[0]
 		s.g.seq = saved
+		if r.Intn(12) == 0 && target != "*" && target != "" && target != "zz" {
+			// the subscription's own target is removed in the window (and usually added again later)
+			op = fmt.Sprintf("remove %s %d", encStr(target), g.tick())
+			s.readd = append(s.readd, target)
+		}
 		s.emit("subw %s %s %s %s %s", encStr(id), acl, req, []string{"start", "end"}[r.Intn(2)], op)
 	} else if mode == "s" && !s.gate[id] && req != "eof" && r.Intn(6) == 0 {
 		// the subscription attaches in the middle of a Reset of one of the targets
@@ -976,6 +982,20 @@ func (c *suComp) Gen(r *rand.Rand, tier string) []string {
 				s.gate[id] = true
 			}
 		default:
+			if len(s.readd) > 0 && r.Intn(2) == 0 {
+				// (first let the POLL subscribers poll against the cache that lacks the target)
+				for _, id := range s.ids {
+					if !s.gate[id] && r.Intn(2) == 0 {
+						s.emit("poll %s", encStr(id))
+					}
+				}
+				// (Cache.Add on a registered name silently replaces the target — the feed is not told —, so
+				// whether or not the injected Remove ran, the name is removed before it is added again)
+				s.emit("ca remove %s %d", encStr(s.readd[0]), g.tick())
+				s.emit("ca add %s", encStr(s.readd[0]))
+				s.readd = s.readd[1:]
+				break
+			}
 			g.step()
 			s.flushCA()
 		}
